@@ -183,6 +183,10 @@ def run_correspondence(ck, consts):
         ck.obligation("harness decode (Loki JSON documents) ran", False, out[-1500:])
         return
     cases += load_jsonl(outp2)
+    # a framed snappy stream cut between two chunks is a valid shorter stream (clean EOF): nobody can tell, not judged
+    clean_prefix = [c for c in cases if c.get("cut") and c["cut"].get("clean_prefix")]
+    cases = [c for c in cases if not (c.get("cut") and c["cut"].get("clean_prefix"))]
+    ck.extra["cut_bodies_ending_in_a_clean_eof_not_judged"] = len(clean_prefix)
     byid = {c["id"]: c for c in cases}
     hists = {}
     for c in cases:
@@ -202,7 +206,9 @@ def run_correspondence(ck, consts):
           [("jcase", ks) for ks in shards([dict(c, coq=c["coqj"]) for c in jcases if c.get("tree_kind") == "jcase"], max_n=80)] + \
           [("dcase", ks) for ks in shards([dict(c, coq=c["coqj"]) for c in jcases if c.get("tree_kind") == "dcase"], max_n=200)] + \
           [("mcase", ks) for ks in shards([dict(c, coq=c["coqj"]) for c in jcases if c.get("tree_kind") == "mcase"], max_n=200)] + \
-          [("wcase", ks) for ks in shards([dict(c, coq=c["coqj"]) for c in jcases if c.get("tree_kind") == "wcase"], max_n=200)]
+          [("wcase", ks) for ks in shards([dict(c, coq=c["coqj"]) for c in jcases if c.get("tree_kind") == "wcase"], max_n=200)] + \
+          [("fcase", ks) for ks in shards([dict(c, coq=c["coqj"]) for c in jcases if c.get("tree_kind") == "fcase"], max_n=200)] + \
+          [("wfcase", ks) for ks in shards([dict(c, coq=c["coqj"]) for c in jcases if c.get("tree_kind") == "wfcase"], max_n=200)]
 
     def eval_shard(ix):
         i, (kind, ks) = ix
@@ -214,6 +220,10 @@ def run_correspondence(ck, consts):
             m, v, out = eval_two(ck, "C03_decodem_%d" % i, DHEADER, "mcase", ks, "mc_check_all")
         elif kind == "wcase":
             m, v, out = eval_two(ck, "C03_decodew_%d" % i, WHEADER, "wcase", ks, "wc_check_all")
+        elif kind == "fcase":
+            m, v, out = eval_two(ck, "C03_decodef_%d" % i, HEADER, "case", ks, "fr_check_all")
+        elif kind == "wfcase":
+            m, v, out = eval_two(ck, "C03_decodewf_%d" % i, WHEADER, "wcase", ks, "wc_fr_check_all")
         else:
             m, v, out = eval_two(ck, "C03_decoded_%d" % i, DHEADER, "dcase", ks, "dc_check_all")
         return m, v, ([] if m is not None else None), out
@@ -266,6 +276,9 @@ def run_correspondence(ck, consts):
             got = sum(len(k["ts"]) for k in c["obs"]["chunks"])
             if c.get("hist") and c["step"] > 1 and not c["obs"]["err"] and not c["obs"].get("changed_after_receive"):
                 sig = "a body decoded after other bodies in the same process gets rows it does not get on its own (state kept between requests)"
+            elif c.get("cut"):
+                sig = "a body whose reader failed part-way (%s, %s at byte %d of %d) was answered without an error and with rows other than those of the whole body" % (
+                    c["cut"]["enc"], c["cut"]["kind"], c["cut"].get("at", -1), c["cut"].get("of", -1))
             elif c["obs"].get("changed_after_receive"):
                 sig = "responses already sent were overwritten while the parser went on (columns read at the end of the request, as the inserting consumer does)"
             elif c["obs"]["err"]:
@@ -331,6 +344,16 @@ def run_correspondence(ck, consts):
     ck.extra["parser_errors_by_class"] = errs
     ck.extra["unmodelled_bodies"] = len(unmod)
     nh = len(hists)
+    cuts = {}
+    for c in cases:
+        if c.get("cut"):
+            k = "%s/%s/%s" % (c["proto"], c["cut"]["enc"], c["cut"]["kind"])
+            d = cuts.setdefault(k, {"failed": 0, "answered_with_all_rows": 0})
+            d["failed" if c["obs"]["err"] else "answered_with_all_rows"] += 1
+    ck.extra["bodies_read_through_a_failing_reader"] = cuts
+    ck.obligation("bodies read through a reader that fails part-way (truncated / corrupted gzip and snappy streams, broken connection) are part of the run: %d bodies, %d failed, %d answered with the rows of the whole body"
+                  % (sum(sum(d.values()) for d in cuts.values()), sum(d["failed"] for d in cuts.values()), sum(d["answered_with_all_rows"] for d in cuts.values())),
+                  sum(d["failed"] for d in cuts.values()) > 0)
     ck.extra["histories"] = {"count": nh, "steps": sum(len(v) for v in hists.values()),
                              "with_shared_announcement_cache": sum(1 for v in hists.values() if v[0].get("cache") == "shared"),
                              "mixed_protocols": sum(1 for v in hists.values() if len({x["proto"] for x in v}) > 1)}
